@@ -420,6 +420,16 @@ func (p *Proxy) handleConnectRequest(ctx *Context, req *http.Request, session *S
 	cbr := bufio.NewReader(cconn)
 	defer cbw.Flush()
 
+	// Bytes that arrived in the same segment as the CONNECT request are already
+	// buffered in brw; forward them now so that they do not linger in cbw's
+	// buffer until it fills up or the tunnel ends.
+	if n := brw.Reader.Buffered(); n > 0 {
+		early, _ := brw.Reader.Peek(n)
+		cbw.Write(early)
+		cbw.Flush()
+		brw.Reader.Discard(n)
+	}
+
 	copySync := func(w io.Writer, r io.Reader, donec chan<- bool) {
 		if _, err := io.Copy(w, r); err != nil && err != io.EOF {
 			log.Errorf("martian: failed to copy CONNECT tunnel: %v", err)
